@@ -93,6 +93,54 @@ Definition c06_mismatch (k : c06case) : option nat := abs_mismatch (c6_k k).
 Definition c06_transmitted (k : c06case) : nat :=
   length (filter (fun p => negb (is_nilb (snd p))) (raws_and_msgs (ac_events (c6_k k)) (ac_obs (c6_k k)))).
 
+(* C06 across mapping switches: every mapping has its own deadzone / flip / kind for the axis.  The configuration in force for an
+   axis event is the one of the mapping the implementation reported (State().Mapping) after the previous event.  The
+   suppressed-event test starts afresh after a mapping change (the other mapping may address another controller);
+   monotonicity is demanded over all events of the same mapping. *)
+Record c06mcase := { c6m_gs : list (N * c06cfg); c6m_init : N; c6m_k : acase }.
+
+Definition g_of (gs : list (N * c06cfg)) (m : N) : option c06cfg := get N.eqb m gs.
+
+Fixpoint c06m_scan (gs : list (N * c06cfg)) (cur : N) (last : option msg) (h : list fev) (obs : list ostep) (i : nat) : list nat :=
+  match h, obs with
+  | e :: r, o :: os =>
+      let cur' := o_map o in
+      match e with
+      | FAbs _ _ raw =>
+          match g_of gs cur with
+          | None => c06m_scan gs cur' last r os (S i)
+          | Some g =>
+              let ms := o_midi o in
+              let ok := match ms, last with
+                        | [], Some m => c06_event_ok g raw [m]
+                        | _, _ => c06_event_ok g raw ms
+                        end in
+              let last' := match ms with m :: _ => Some m | [] => last end in
+              (if ok then [] else [i]) ++ c06m_scan gs cur' last' r os (S i)
+          end
+      | _ => c06m_scan gs cur' (if cur' =? cur then last else None) r os (S i)
+      end
+  | _, _ => []
+  end.
+
+Fixpoint c06m_collect (m : N) (cur : N) (h : list fev) (obs : list ostep) : list (Z * list msg) :=
+  match h, obs with
+  | e :: r, o :: os =>
+      match e with
+      | FAbs _ _ raw => (if cur =? m then [(raw, o_midi o)] else []) ++ c06m_collect m (o_map o) r os
+      | _ => c06m_collect m (o_map o) r os
+      end
+  | _, _ => []
+  end.
+
+Definition c06m_failures (k : c06mcase) : list nat :=
+  let h := ac_events (c6m_k k) in let obs := ac_obs (c6m_k k) in
+  c06m_scan (c6m_gs k) (c6m_init k) None h obs 0 ++
+  (if forallb (fun mg => c06_monotone (snd mg) (c06m_collect (fst mg) (c6m_init k) h obs)) (c6m_gs k) then [] else [length h]).
+Definition c06m_mismatch (k : c06mcase) : option nat := abs_mismatch (c6m_k k).
+Definition c06m_transmitted (k : c06mcase) : nat :=
+  length (filter (fun p => negb (is_nilb (snd p))) (raws_and_msgs (ac_events (c6m_k k)) (ac_obs (c6m_k k)))).
+
 (* ====================================================================== C07: bidirectional controllers at the receiver *)
 (* pairs: ((cc, ch), (ccneg, chneg)) of every bidirectional axis of the case *)
 Definition c07_pairs := list (pair * pair).
